@@ -6,6 +6,7 @@ import ProfiVerif.Props.C11
 import ProfiVerif.Props.C15
 import ProfiVerif.Props.C16
 import ProfiVerif.Props.C02
+import ProfiVerif.Lemmas.StationProgress
 
 namespace PV.C06
 open PV
@@ -58,5 +59,130 @@ theorem backoff_data (c : Ctx) (now : Int) (addr : Nat) (d : UseData) (hst : c.s
 
 /-- `restart_clean`: `set_offline` followed by `set_online` is indistinguishable from a fresh station. -/
 theorem restart_clean (s : Station) : s.setOffline.setOnline = (Station.new s.p).setOnline := rfl
+
+/-! ## Liveness on a silent bus: a single online station never stays silent
+
+Setting of all theorems below: a station context satisfying the C05 invariant `Inv`, online, nothing
+handed to the PHY yet in this poll, **empty receive buffer**, a known bus-activity stamp `l`, PHY idle
+(`phyTransmitting = false`).  `T := Params.silence = max tokenLostTimeout (max slotTime (bits 33))` is
+the longest timer the station ever waits on; a poll at `now` with `l + T < now` is called *late*
+(`Late p l now`).  `pollsToTx s ∈ {1, 2, 3}` is the number of late polls the state needs:
+3 for `ClaimToken(Scan | ScanAwait)` standing at the last GAP address, 2 for `ClaimToken(Scan)` with the
+sweep finished, 1 for every other state. -/
+
+/-- **`silent_bus_progress`**: a late poll on a silent bus returns regularly, keeps the invariant,
+parameters and connectivity, and EITHER hands a telegram to the PHY OR ends — receive buffer still
+empty, stamp still `l`, so the same time bound keeps holding — in a state related to the start state
+by `Deferred`, i.e. exactly one of
+* `ClaimToken(Scan)`, GAP state `Waiting` → `PassToken(no gap, first)`;
+* `ClaimToken(Scan)` or `ClaimToken(ScanAwait a)` whose sweep position `cur` is the last GAP address
+  (`nextGapPoll TS NS HSA cur = waiting`) → `ClaimToken(Scan)` with GAP state `Waiting 0`;
+and then the bound `pollsToTx` has strictly decreased.  (`UseToken` and `AwaitDataResponse` after its
+time-out pass the token in the same poll — repair of finding K3 — and therefore always transmit.) -/
+theorem silent_bus_progress (c : Ctx) (now l : Int) (hinv : Inv c.s c.apps) (hon : c.s.online = true)
+    (htx : c.tx = none) (hrx : c.rx = []) (hl : c.s.lastBusActivity = some l)
+    (hlate : l + (c.s.p.silence : Nat) < now) :
+    ∃ c', pollInner c now false = .ok c' ∧ Inv c'.s c'.apps ∧ c'.apps.length = c.apps.length ∧
+      c'.s.online = true ∧ c'.s.p = c.s.p ∧
+      (c'.tx ≠ none ∨
+        (c'.tx = none ∧ c'.rx = [] ∧ c'.s.lastBusActivity = some l ∧ Deferred c.s c'.s ∧
+          pollsToTx c'.s < pollsToTx c.s)) := by
+  obtain ⟨c', h, hi, hlen, ho, hp, hd⟩ := silent_step c now l hinv ⟨hon, htx, hrx, hl⟩
+  refine ⟨c', h, hi, hlen, ho, hp, hd.imp id ?_⟩
+  rintro ⟨hs', hdef⟩
+  exact ⟨hs'.tx, hs'.rx, hs'.last, hdef hlate, deferred_lt (hdef hlate)⟩
+
+/-- **Exact characterisation of the first late poll**: it transmits if and only if the start state's
+bound is 1 — i.e. every state except `ClaimToken(Scan)` with the sweep finished and
+`ClaimToken(Scan | ScanAwait)` at the last GAP address. -/
+theorem silent_poll_transmits_iff (c : Ctx) (now l : Int) (hinv : Inv c.s c.apps) (hon : c.s.online = true)
+    (htx : c.tx = none) (hrx : c.rx = []) (hl : c.s.lastBusActivity = some l)
+    (hlate : l + (c.s.p.silence : Nat) < now) (c' : Ctx) (h : pollInner c now false = .ok c') :
+    c'.tx ≠ none ↔ pollsToTx c.s = 1 := by
+  have hs : Sil c l := ⟨hon, htx, hrx, hl⟩
+  constructor
+  · intro ht
+    by_cases hb : 2 ≤ pollsToTx c.s
+    · exact absurd (late_noTx_of_bound c now l hs hinv hlate hb c' h) ht
+    · have := (pollsToTx_le c.s).1; omega
+  · intro h1
+    obtain ⟨c'', h', -, -, -, -, hd⟩ := silent_bus_progress c now l hinv hon htx hrx hl hlate
+    rw [h] at h'
+    cases h'
+    rcases hd with hd | ⟨-, -, -, -, hlt⟩
+    · exact hd
+    · have := (pollsToTx_le c'.s).1; omega
+
+/-- The poll that follows a deferred one: from `PassToken` the next late poll transmits. -/
+theorem pass_token_transmits (c : Ctx) (now l : Int) (hinv : Inv c.s c.apps) (hon : c.s.online = true)
+    (htx : c.tx = none) (hrx : c.rx = []) (hl : c.s.lastBusActivity = some l)
+    (hlate : l + (c.s.p.silence : Nat) < now) (g : Bool) (att : Attempt) (hst : c.s.st = .passToken g att) :
+    ∃ c', pollInner c now false = .ok c' ∧ Inv c'.s c'.apps ∧ c'.tx ≠ none := by
+  obtain ⟨c', h, hi, -, -, -, hd⟩ := silent_bus_progress c now l hinv hon htx hrx hl hlate
+  refine ⟨c', h, hi, ?_⟩
+  exact (silent_poll_transmits_iff c now l hinv hon htx hrx hl hlate c' h).2 (by simp [pollsToTx, hst])
+
+/-- **`silent_bus_polls`**: `pollsToTx s` late polls (at any later times, in any order) on a silent bus
+contain a transmission; all polls up to it return regularly. -/
+theorem silent_bus_polls (s : Station) (apps : Apps) (l : Int) (hinv : Inv s apps) (hon : s.online = true)
+    (hl : s.lastBusActivity = some l) (late : List Int) (hlate : ∀ t ∈ late, l + (s.p.silence : Nat) < t)
+    (hn : pollsToTx s ≤ late.length) : TransmitsWithin s apps [] late :=
+  late_polls_transmit s.p l late.length late s apps hinv hon hl rfl hlate hn (Nat.le_refl _)
+
+/-- **`silent_bus_two_polls`**: for every start state except `ClaimToken(Scan | ScanAwait)` standing at
+the last GAP address, the first late poll transmits or the second one does. -/
+theorem silent_bus_two_polls (s : Station) (apps : Apps) (l now now2 : Int) (hinv : Inv s apps) (hon : s.online = true)
+    (hl : s.lastBusActivity = some l) (h1 : l + (s.p.silence : Nat) < now) (h2 : now ≤ now2)
+    (hb : pollsToTx s ≤ 2) : TransmitsWithin s apps [] [now, now2] :=
+  silent_bus_polls s apps l hinv hon hl [now, now2]
+    (by intro t ht; simp at ht; rcases ht with rfl | rfl <;> omega) hb
+
+/-- **`silent_bus_three_polls`**: from EVERY state, among three late polls one transmits. -/
+theorem silent_bus_three_polls (s : Station) (apps : Apps) (l now now2 now3 : Int) (hinv : Inv s apps)
+    (hon : s.online = true) (hl : s.lastBusActivity = some l) (h1 : l + (s.p.silence : Nat) < now)
+    (h2 : now ≤ now2) (h3 : now2 ≤ now3) : TransmitsWithin s apps [] [now, now2, now3] :=
+  silent_bus_polls s apps l hinv hon hl [now, now2, now3]
+    (by intro t ht; simp at ht; rcases ht with rfl | rfl | rfl <;> omega) (pollsToTx_le s).2
+
+/-- **`never_permanently_silent`** (schedule form): on a silent bus, whatever polls precede (`pre`, at
+arbitrary times — they either transmit or leave stamp and silence untouched), the transmission comes
+no later than the third poll whose time exceeds `l + T`. -/
+theorem never_permanently_silent (s : Station) (apps : Apps) (l : Int) (hinv : Inv s apps) (hon : s.online = true)
+    (hl : s.lastBusActivity = some l) (pre late : List Int) (hlate : ∀ t ∈ late, l + (s.p.silence : Nat) < t)
+    (h3 : 3 ≤ late.length) : TransmitsWithin s apps [] (pre ++ late) :=
+  pre_polls s.p l late pre s apps hinv hon hl rfl (fun s' apps' hi' ho' hl' hp' =>
+    late_polls_transmit s.p l late.length late s' apps' hi' ho' hl' hp' hlate
+      (by have := (pollsToTx_le s').2; omega) (Nat.le_refl _))
+
+/-- **`never_permanently_silent_timed`**: for an infinite poll schedule `t 0 ≤ t 1 ≤ …` with poll period
+at most `P` that does not stop before `l + T`, a transmission occurs at a poll no later than
+`l + T + 3·P` after the last registered bus activity `l`. -/
+theorem never_permanently_silent_timed (s : Station) (apps : Apps) (l : Int) (hinv : Inv s apps) (hon : s.online = true)
+    (hl : s.lastBusActivity = some l) (t : Nat → Int) (P : Nat)
+    (hmono : ∀ i, t i ≤ t (i + 1)) (hgap : ∀ i, t (i + 1) ≤ t i + P)
+    (h0 : t 0 ≤ l + (s.p.silence : Nat) + P) (hgo : ∃ k, l + (s.p.silence : Nat) < t k) :
+    ∃ n, t n ≤ l + (s.p.silence : Nat) + 3 * P ∧ TransmitsWithin s apps [] ((List.range (n + 1)).map t) := by
+  obtain ⟨k, hk⟩ := hgo
+  -- the first late poll
+  have first : ∀ k, l + (s.p.silence : Nat) < t k → ∃ j, l + (s.p.silence : Nat) < t j ∧ t j ≤ l + (s.p.silence : Nat) + P := by
+    intro k
+    induction k with
+    | zero => intro h; exact ⟨0, h, h0⟩
+    | succ k ih =>
+      intro h
+      by_cases hk' : l + (s.p.silence : Nat) < t k
+      · exact ih hk'
+      · exact ⟨k + 1, h, by have := hgap k; omega⟩
+  obtain ⟨j, hj1, hj2⟩ := first k hk
+  have hg2 : t (j + 2) ≤ t (j + 1) + P := hgap (j + 1)
+  have hm2 : t (j + 1) ≤ t (j + 2) := hmono (j + 1)
+  refine ⟨j + 2, by have := hgap j; omega, ?_⟩
+  have hsplit : (List.range (j + 2 + 1)).map t = (List.range j).map t ++ [t j, t (j + 1), t (j + 2)] := by
+    rw [show j + 2 + 1 = j + 3 from rfl, List.range_add]
+    simp [List.range_succ]
+  rw [hsplit]
+  exact never_permanently_silent s apps l hinv hon hl _ _
+    (by intro x hx; simp at hx; have := hmono j; rcases hx with rfl | rfl | rfl <;> omega)
+    (by simp)
 
 end PV.C06
